@@ -626,6 +626,11 @@ def strategy_fine_stark():
         case["ts"] = draw(st.one_of(st.just(0.0), st.floats(0.05, 30.0)))
         case["nfw"] = draw(st.integers(2, 6))
         case["span"] = draw(st.sampled_from([8.0, 30.0, 52.0, 60.0]))
+        # the integrator is configured through its public setters in a drawn order (and must then behave exactly like
+        # one constructed directly with the final settings)
+        case["integ_ops"] = draw(st.lists(st.one_of(
+            st.tuples(st.just("min_order"), st.integers(1, 30)), st.tuples(st.just("max_order"), st.integers(30, 64)),
+            st.tuples(st.just("relative_tolerance"), st.sampled_from([1e-10, 1e-10, 1e-7]))), min_size=0, max_size=4).map(lambda l: [list(x) for x in l]))
         case.pop("multiplet", None), case.pop("zs", None), case.pop("pz", None), case.pop("mse", None)
         return case
     return s()
@@ -654,9 +659,30 @@ def run_fine_stark(case, ctx):
     d = (wmax - wmin) / bins
     Rr = case["R"] if case["R"] > 0 else 1.0
     with ctx.cut("construct"):
-        b = build(case, integrator=GaussianQuadrature(relative_tolerance=1e-10))
+        integ = GaussianQuadrature(relative_tolerance=1e-10)
+        final = {"min_order": 1, "max_order": 50, "relative_tolerance": 1e-10}
+        for name, v in case.get("integ_ops", []):
+            if (name == "min_order" and v > final["max_order"]) or (name == "max_order" and v < final["min_order"]):
+                continue
+            setattr(integ, name, v)
+            final[name] = v
+        b = build(case, integrator=integ)
     with ctx.cut("add_line"):
         got = add(b, case, Rr, wmin, wmax, bins)
+    if case.get("integ_ops"):
+        ctx.label("integrator-setters")
+        with ctx.cut("construct"):
+            b2 = build(case, integrator=GaussianQuadrature(relative_tolerance=final["relative_tolerance"],
+                                                           max_order=final["max_order"], min_order=final["min_order"]))
+        with ctx.cut("add_line"):
+            got2 = add(b2, case, Rr, wmin, wmax, bins)
+        ctx.check(np.array_equal(got, got2), "integrator-setters",
+                  lambda: "integrator configured through setters %r differs from one constructed with %r: max diff %r x bin width"
+                  % (case["integ_ops"], final, float(np.max(np.abs(got - got2)) * d)))
+    if final["relative_tolerance"] > 1e-10 or final["min_order"] > 1:
+        # the sharp absolute tolerance below is stated for relative_tolerance 1e-10 starting at order 1
+        ctx.nt(comps[0][3] > 0)
+        return
     exp0 = expected_bins(comps, Rr, wmin, wmax, bins)
     exp1 = expected_bins(components(case, pol, sigscale=1 + 1e-9, shiftscale=1 + 3e-8), Rr, wmin, wmax, bins)
     slack = np.abs(exp1 - exp0) * d
